@@ -7,6 +7,7 @@ RULE = ("run <mode> T oid / oidskip / oidskipif on OID contents: all of length 0
         "{0,1,2,39,40,79,80,127,128,2^14+-1,2^21+-1,2^25,2^28+-1,2^32-81,2^32-80,2^32-1,2^32,2^64} plus malformed text; "
         "oid.show (components, to_u32, Display) on accepted contents; display(parse(text)) = canonical text (relational). "
         "non-trivial = accepted.")
+CROSS = {'C04': 2000, 'C07': 1000}   # cross streams: samples of neighbouring properties' request streams (outcomes, model <-> implementation)
 EXHAUSTIVE = {"quick": False, "thorough": False}
 EXHAUSTIVE_NOTE = {"quick": "all OID contents of <= 2 octets x 3 modes x take/skip", "thorough": "all OID contents of <= 3 octets (BER)"}
 ASSUMPTIONS = ["u32::from_str and str::split are modelled (optional '+', ASCII digits, overflow -> error), exercised by the text sweeps",
